@@ -147,6 +147,32 @@ func replayLine(l line, jl *jobList) bool {
 		}
 		jl.addBind(sc)
 		return true
+	case "value":
+		var sc ValueScenario
+		if err := json.Unmarshal(l.Sc, &sc); err != nil {
+			fmt.Fprintln(os.Stderr, "bad scenario:", err)
+			os.Exit(2)
+		}
+		jl.addValue(sc)
+		return true
+	case "store", "storehist":
+		return replayStoreLine(l, jl)
+	case "config":
+		var sc CfgScenario
+		if err := json.Unmarshal(l.Sc, &sc); err != nil {
+			fmt.Fprintln(os.Stderr, "bad scenario:", err)
+			os.Exit(2)
+		}
+		jl.addConfig(sc)
+		return true
+	case "wait":
+		var sc WaitScenario
+		if err := json.Unmarshal(l.Sc, &sc); err != nil {
+			fmt.Fprintln(os.Stderr, "bad scenario:", err)
+			os.Exit(2)
+		}
+		jl.addWait(sc)
+		return true
 	case "pool":
 		var sc PoolSc
 		if err := json.Unmarshal(l.Sc, &sc); err != nil {
@@ -198,6 +224,18 @@ func generate(prop, tier string, seed uint64, jl *jobList) int {
 		genBind(r, thorough, jl.addBind)
 	case "batchseq":
 		genBatchSeq(r, thorough, jl.addFlow)
+	case "C15":
+		genC15(r, thorough, jl.addValue)
+	case "C14":
+		genC14(r, thorough, jl.addStore)
+	case "C13stress":
+		genC13stress(r, thorough, jl.addHist)
+		return 2 // few histories at a time, so that each history's goroutines really run in parallel
+	case "C19":
+		genConfig(r, thorough, jl.addConfig)
+	case "C20":
+		genC20(r, thorough, jl.addWait)
+		return 64 // real-time scenarios mostly sleep
 	case "pool":
 		genPool(r, thorough, shardIdx, shardCnt, jl)
 		return 1
